@@ -66,7 +66,7 @@ MIN_EVENTS = {"read": (8000, 300000), "budget-armed": (8000, 300000), "outcome:p
               "tree-walked": (800, 20000), "dims-judged:nexus": (500, 10000), "dims-judged:nexus-rows": (200, 5000),
               "dims-judged:phylip": (300, 3000), "hook:NexusReader._read:call": (4000, 150000),
               "hook:PhylipReader._read:call": (800, 20000), "hook:NexusReader._parse_matrix_statement:return": (500, 10000),
-              "prefix-read": (3000, 20000), "edit-read": (3000, 200000), "random-read": (1000, 60000),
+              "prefix-read": (3000, 8000), "edit-read": (3000, 100000), "random-read": (1000, 30000),
               "valid-document-returned": (20, 60), "depth-stress-read": (7, 7)}
 ASSUMPTIONS = ["allowed exceptions: subclasses of dendropy.utility.error.DataParseError (Tokenizer.*, NexusReader.*, NewickReader.*, "
                "PhylipReader.* error classes) and the three 'no data' ValueErrors of the get() factories",
